@@ -324,6 +324,8 @@ class RebuildUnbounded(Case):
             offs.append(off)
             off += cons[k]
         H.assume(0 <= P <= n_prev and off <= n_prev and all(x >= 1 for x in lens) and all(cons[k - 1] >= 1 for k in range(1, n)))
+        # models with hundreds of thousands of items are not replayed (a native run on them takes minutes and adds nothing)
+        H.assume(n_prev <= 3000 and all(H.inputs.get('len_R%d' % k, 0) <= 3000 for k in range(n)))
         if H.assume_failed:
             return
         items = [I("PUSH", hex(t)[2:], t) for t in range(n_prev)]
